@@ -1087,15 +1087,18 @@ Definition symtype_of (e : esym) : Z :=
   else if (e_bind e =? 10) && obj then 117                     (* STB_GNU_UNIQUE object: 'u' *)
   else 63.                                                     (* '?' *)
 
-(* load_symbol over the symbols in file order; prev = st_value of the last symbol that was loaded *)
-Fixpoint load_symbols (offset prev : Z) (l : list esym) : symtab :=
+(* load_symbol over the symbols in file order.  [prev] is load_symtab's prev_sym_value: with
+   [only_acc = true] (the code; generated flag symtab_prev_only_accepted) it is the st_value of the
+   last symbol that was LOADED - load_symbol skips an entry as an alias only of that one;
+   [only_acc = false]: the value of the previous ELF entry whatever it was *)
+Fixpoint load_symbols (only_acc : bool) (offset prev : Z) (l : list esym) : symtab :=
   match l with
   | [] => []
   | e :: r =>
       if loadable e && negb (prev =? e_value e)
       then mkSym ((e_value e + offset) mod W64) (e_size e mod W32) (symtype_of e) (e_name e)
-           :: load_symbols offset (e_value e) r
-      else load_symbols offset prev r
+           :: load_symbols only_acc offset (e_value e) r
+      else load_symbols only_acc offset (if only_acc then prev else e_value e) r
   end.
 
 (* sort_symtab: symbols of one address become one entry - the data of the last one, the name
@@ -1114,8 +1117,9 @@ Definition dedup_syms (l : symtab) : symtab :=
 
 Definition elf_offset (adj : bool) (offset0 vaddr0 : Z) : Z := if adj then (offset0 - vaddr0) mod W64 else offset0.
 
-Definition load_symtab (adj : bool) (offset0 vaddr0 : Z) (syms : list esym) : symtab :=
-  dedup_syms (sort_syms (load_symbols (elf_offset adj offset0 vaddr0) (-1) syms)).
+Definition load_symtab_gen (only_acc adj : bool) (offset0 vaddr0 : Z) (syms : list esym) : symtab :=
+  dedup_syms (sort_syms (load_symbols only_acc (elf_offset adj offset0 vaddr0) (-1) syms)).
+Definition load_symtab := load_symtab_gen true.
 
 (* merge_symtabs: the table whose first address is smaller goes first, then qsort by address *)
 Definition merge_symtabs (left right : symtab) : symtab :=
@@ -1157,7 +1161,7 @@ Record elffile := mkElf {
 (* load_module_symbol without a symbol file, SYMTAB_FL_ADJ_OFFSET, caller's offset 0 *)
 Definition module_table (f : elffile) : symtab :=
   let offset := elf_offset true 0 (ef_vaddr0 f) in
-  let st := load_symtab true 0 (ef_vaddr0 f) (ef_symtab f) in
+  let st := load_symtab_gen symtab_prev_only_accepted true 0 (ef_vaddr0 f) (ef_symtab f) in
   let dyn := merge_symtabs (load_elf_dynsymtab true 0 (ef_plt f)) (noplt_syms offset (ef_reladyn f) (ef_globdat f)) in
   fold_left (update_one offset) (ef_dynsym f) (merge_symtabs st dyn).
 
